@@ -548,7 +548,7 @@ class MultilevelSolver:
                 normb = 1.0  # set so that we have an absolute tolerance
 
         # Start cycling (no acceleration)
-        normr = np.linalg.norm(b - A @ x)
+        normr = np.linalg.norm(np.ravel(b) - A @ np.ravel(x))
         if residuals is not None:
             residuals[:] = [normr]  # initial residual
 
